@@ -831,11 +831,12 @@ Proof.
   destruct H as (H1 & H2 & H3). split; [exact H3|]. eapply Forall_impl; [|exact H2]. cbn beta. cbn [init next_rr] in *. intros p A. lia.
 Qed.
 
-(* without any bound on the number of calls: an accepted id is never 0 *)
-Theorem C02_rr_nonzero_thm : forall silent evs s tr, run_trace silent init evs = (s, tr) ->
+(* without any bound on the number of calls and from any state: an id of an accepted call is never 0
+   (Ret 0 is returned only for rejections, see C02_rejected_iff_thm; the counter skips 0 when it wraps) *)
+Theorem C02_rr_nonzero_thm : forall silent s0 evs s tr, run_trace silent s0 evs = (s, tr) ->
   Forall (fun p => p_rr p <> 0) (accepted tr).
 Proof.
-  intros silent evs. generalize init. induction evs as [|e r IH]; intros s0 s tr H.
+  intros silent s0 evs. revert s0. induction evs as [|e r IH]; intros s0 s tr H.
   - inversion H; subst. constructor.
   - rewrite run_trace_cons in H. destruct (step silent s0 e) as [s1 o1] eqn:S. destruct (run_trace silent s1 r) as [s2 t] eqn:R.
     inversion H; subst s tr. rewrite accepted_cons. apply Forall_app. split; [|eapply IH; eauto].
